@@ -15,6 +15,7 @@ import Dlismodel.Props.C03
 import Dlismodel.Props.C04
 import Dlismodel.Props.C16
 import Dlismodel.Props.C11
+import Dlismodel.Proofs.Convert
 namespace Dlis.C12
 open Dlis
 
@@ -139,5 +140,36 @@ theorem rejects_unequal_rows (src : DataSrc) (mapping : List PStr) (c0 : List Sl
 /-- a degenerate but representable value — the empty list — is written faithfully: count 0, no value -/
 theorem empty_list_faithful (a : AttrSt) (h0 : a.vals = []) (hl : a.isList = true) :
     a.count = 0 ∧ descByte a % 2 = 0 ∧ descByte a / 8 % 2 = 1 := C04.empty_list_encoding a h0 hl
+
+/-! ### fail-closed at the attribute setters (`Model/Convert.lean`) -/
+
+/-- a text attribute refuses everything that is not a `str`; a numeric one everything that is not a number; a
+status one every number other than 0 and 1; a reference attribute every item of another type -/
+theorem text_rejects_non_str {hc : Bool} {rc : Except Err (Option Nat)} {mem : List PStr} (v : PyVal)
+    (h : ∀ s ec p, v ≠ .str s ec p) : applyConv .text hc rc mem v = .error .type := by
+  cases v <;> simp [applyConv] ; exact absurd rfl (h _ _ _)
+
+theorem numeric_rejects_non_number {hc intOnly : Bool} {rc : Option Nat} {mem : List PStr} (v : PyVal)
+    (h : isNumber v = false) : applyConv (.numeric intOnly) hc (.ok rc) mem v = .error .type := by
+  cases v <;> simp [isNumber] at h <;> simp [applyConv, intParser, floatParser, isNumber] <;>
+    (repeat' split) <;> rfl
+
+theorem numeric_int_rejects_fraction {hc : Bool} {rc : Except Err (Option Nat)} {mem : List PStr} (f : Nat)
+    (h : f64ToInt f = none) : applyConv (.numeric true) hc rc mem (.float f) = .error .value := by
+  simp [applyConv, intParser, h]
+
+theorem status_rejects_other_numbers {hc : Bool} {rc : Except Err (Option Nat)} {mem : List PStr} (i : Int)
+    (h : i ≠ 0 ∧ i ≠ 1) : applyConv .status hc rc mem (.int i) = .error .value := by
+  simp [applyConv, h.1, h.2]
+
+theorem reference_rejects_other_type {hc : Bool} {rc : Except Err (Option Nat)} {mem : List PStr} (c : String)
+    (t : PStr) (o : ObName) (h : setTypeStr t ≠ c) : applyConv (.eflr (some c)) hc rc mem (.obj t o) = .error .type := by
+  simp [applyConv, h]
+
+/-- a rejected value leaves the attribute as it was -/
+theorem rejected_assignment_keeps_state (a : AttrSpec) (hc : Bool) (mem um : List PStr) (st : AttrState) (v : PyVal)
+    (ps : List Part) (e : Err) (h : setValue a hc mem st v = .error e) :
+    assignParts a hc mem um st (.value v :: ps) = (st, some e) := by
+  simp [assignParts, h]
 
 end Dlis.C12
